@@ -503,8 +503,10 @@ def id_takeover_cases(rng, n):
 def cases(rng: random.Random, tier: str):
     yield from id_takeover_cases(rng, 12 if tier == "quick" else 200)
     n_h = 30 if tier == "quick" else 550
+    directed = Z.directed_hiers(rng)
+    _stat("directed_families", len(directed))
     for j in range(n_h):
-        proto_h = Z.gen_hier(rng)
+        proto_h = directed[j] if j < len(directed) else Z.gen_hier(rng)
         _hier_stats(proto_h)
         for si, sched in enumerate(schedules(rng, len(proto_h.levels), tier)):
             yield from run_schedule(rng, proto_h, sched, f"hierarchy {j} schedule {si}")
